@@ -57,21 +57,30 @@ theorem minByKey_le {α : Type} (key : α → Nat) : ∀ (l : List α) (x : α),
 theorem denied_decision (ea : EA) (perm : String) : (ea.denied perm).decision = .deny := rfl
 theorem denied_used (ea : EA) (perm : String) : (ea.denied perm).authoritiesUsed = [] := rfl
 
+/-- The stage tag a refusal carries (it does not enter any decision field the theorems speak about). -/
+def denyStage (ea : EA) (perm : String) (res : Resource) (a : Auth) (now : Nat) : String :=
+  if ea.principalStatus ≠ "active" then "inactive"
+  else if ea.spaceStatus = "suspended" then "suspended"
+  else if ea.denyMatches perm (ea.effectiveResource res) a now then "explicit_deny"
+  else "nothing_grants:" ++ (ea.effectiveResource res).label
+
 theorem authorize_inactive (ea : EA) (perm : String) (res : Resource) (a : Auth) (now : Nat)
-    (h : ea.principalStatus ≠ "active") : authorize ea perm res a now = ea.denied perm := by
-  simp [authorize, h]
+    (h : ea.principalStatus ≠ "active") :
+    authorize ea perm res a now = ea.denied perm (denyStage ea perm res a now) := by
+  simp [authorize, denyStage, h]
 
 theorem authorize_suspended (ea : EA) (perm : String) (res : Resource) (a : Auth) (now : Nat)
-    (h : ea.spaceStatus = "suspended") : authorize ea perm res a now = ea.denied perm := by
-  unfold authorize
+    (h : ea.spaceStatus = "suspended") :
+    authorize ea perm res a now = ea.denied perm (denyStage ea perm res a now) := by
+  unfold authorize denyStage
   split
   · rfl
   · simp [h]
 
 theorem authorize_deny (ea : EA) (perm : String) (res : Resource) (a : Auth) (now : Nat)
     (h : ea.denyMatches perm (ea.effectiveResource res) a now = true) :
-    authorize ea perm res a now = ea.denied perm := by
-  unfold authorize
+    authorize ea perm res a now = ea.denied perm (denyStage ea perm res a now) := by
+  unfold authorize denyStage
   split
   · rfl
   · split
@@ -81,8 +90,8 @@ theorem authorize_deny (ea : EA) (perm : String) (res : Resource) (a : Auth) (no
 /-- When no allow exists the decision is the denial. -/
 theorem authorize_no_allows (ea : EA) (perm : String) (res : Resource) (a : Auth) (now : Nat)
     (h : ea.allows perm (ea.effectiveResource res) a now = []) :
-    authorize ea perm res a now = ea.denied perm := by
-  unfold authorize
+    authorize ea perm res a now = ea.denied perm (denyStage ea perm res a now) := by
+  unfold authorize denyStage
   split
   · rfl
   · split
